@@ -121,7 +121,7 @@ def parseTxn (t : Tokens) : TxnM :=
       | _ => none) }
 
 def parseOutcome (s : String) : Outcome :=
-  if s == "200" || s == "202" then .ok else if s == "neterr" then .netErr else .status (s.toNat?.getD 500)
+  if s == "200" || s == "202" then .ok else if s == "neterr" || s == "nettimeout" then .netErr else .status (s.toNat?.getD 500)
 
 /-- the effective run configuration from the raw connect-reply members in the op -/
 def parseRunCfg (t : Tokens) (agentLog : Int) : Option RunCfg :=
